@@ -40,7 +40,7 @@ def burst_cases(rnd, n):
 def gen_cases(tier, rnd):
     cases = [c for c in rg.scenarios() if c[1][0] == 0]
     cases += rc.load_corpus("C05")
-    n_plain, n_timed, n_burst = (1500, 30, 150) if tier == "quick" else (30000, 600, 3000)
+    n_plain, n_timed, n_burst = (450, 6, 50) if tier == "quick" else (30000, 600, 3000)
     for i in range(n_plain):
         cfg = (0, rnd.choice((2, 3, 50, 50)), -1)
         cases.append((("pipe-gen%d" if i % 3 == 0 else "gen%d") % i, cfg, rg.gen_history(rnd, cfg, "c05", rnd.randint(6, 18))))
